@@ -73,6 +73,8 @@ type PoolResult struct {
 	StaleBatch string
 	// ExpectedStore / FinalStore: backend contents after all callers, direct vs through the pool.
 	ExpectedStore, FinalStore string
+	// Final: key -> value of the live backend entries after the execution
+	Final map[string]string `json:"-"`
 }
 
 // LetStaleBatchRun makes executions continue past the point where a stale batch is about to be
@@ -373,5 +375,12 @@ func RunPool(sc PoolScenario, prefix []int) *PoolResult {
 	}
 	res.Outcome = strings.Join(o, " | ")
 	res.FinalStore = store.Dump()
+	// (taken here, inside the bubble: expiry is judged by the virtual clock)
+	res.Final = map[string]string{}
+	for _, k := range store.Keys() {
+		if it := store.Lookup(k); it != nil {
+			res.Final[k] = string(it.Val)
+		}
+	}
 	return res
 }
